@@ -162,6 +162,19 @@ CLAIMED["C17"] = {
                          "concrete dictionary keys)",
 }
 
+CLAIMED["C15"] = {
+    "text": "bounded symbolic checking of a SOURCE-LEVEL MODEL of c_common.pyx (regenerated from the current .pyx by a "
+            "de-cythoniser: typed stores/returns as LP64 conversions that report overflow, memoryviews as aliases) against "
+            "py_common on symbolic inputs for all 19 shared functions (hex strings of 2-28 digits with symbolic case, bit "
+            "strings up to 56 bits, all doubles in range, frames of both lengths), under the property's sentinel map, and "
+            "of seven decoders executed once per implementation. NOT the compiled extension: no Cython exists in the "
+            "sandbox; Cython code generation and the C compiler are outside. The translator is validated against the "
+            "prebuilt binary on the functions whose source is unchanged.",
+    "design_ref": "DESIGN.md section 5 C15", "note": NOTE,
+    "technique": T_SYMX + "; the .pyx is translated to Python with explicit C conversions and executed with the same "
+                          "proxies; character helpers proven equal to closed forms first (lemmas)",
+}
+
 NOT_APPLICABLE = {
     "C20": "transcendental float numerics (numpy **, exp, sqrt, arccos on doubles): no SMT theory reaches the stated "
            "quantities; z3 nlsat answers unknown on the tas<->cas inverse identity; see DESIGN.md section 5 C20",
